@@ -246,7 +246,11 @@ func (p *c10) Run(w *lib.Worker, idx int, r *lib.Rand) lib.Case {
 	if !first[0].O.Loaded {
 		return lib.Case{Tags: []string{"does-not-load"}}
 	}
-	for _, f := range first {
+	for i, f := range first {
+		if knownC07Panic(f.O, i == 1, text) {
+			// the recorded C07 finding: nothing to compare for this document
+			return lib.Case{Tags: []string{"skipped:known-C07-panic"}}
+		}
 		if f.O.Panic != "" {
 			c.Inconclusive = "panic (see C07): " + lib1(f.O.Panic)
 			return c
